@@ -1,7 +1,7 @@
-"""C04 -- Match is deterministic and side-effect free.  G: V2Match stage replay (tie order of candidate ranges), V2Runes (id channel).  T: five classifiers over the same base (other insertion orders, superset, tracing, second instance), interleaved histories, three processes; TraceV2 memo + PureMatch."""
+"""C04 -- Match is deterministic and side-effect free.  M+G: V2Corpus (the classifier's long-lived state as a state machine, every short history replayed).  G: V2Match stage replay (tie order of candidate ranges), V2Runes (id channel).  T: five classifiers over the same base (other insertion orders, superset, tracing, second instance), interleaved histories, three processes; TraceV2 memo + PureMatch."""
 import time
 from lib import vlib
-from checks.v2common import Acc, trace_leg, runes_legs, match_model, match_replay, score_legs, tracecfg_legs, diffrename_leg
+from checks.v2common import Acc, trace_leg, runes_legs, match_model, match_replay, score_legs, tracecfg_legs, diffrename_leg, corpus_legs
 PID = "C04"
 def run():
     t0 = time.time(); v = vlib.Verdict(PID); acc = Acc()
@@ -10,6 +10,7 @@ def run():
     match_replay(v, acc, ["T50"], 3, 5)
     runes_legs(v, acc)
     diffrename_leg(v, acc, 120 if vlib.TIER == "thorough" else 40)   # the diff of a pair keeps its shape when token ids are renamed (which word has id 10 depends on insertion order)
+    corpus_legs(v, acc)            # the long-lived state: ids stable, a name registered again replaced, Match pure -- every history of <= 3 calls on a real Classifier
     tracecfg_legs(v, acc)          # tracing switches: a pure function of the configuration
     score_legs(v, acc, 3)          # the scoring rules range over maps (phrase tables): every script must score as the deterministic spec says
     recs, lines = trace_leg(v, acc, "c04", [PID], procs=5 if vlib.TIER == "thorough" else 3)
